@@ -1,6 +1,9 @@
 package loader
 
 import (
+	"sort"
+	"strings"
+
 	"github.com/compose-spec/compose-go/v2/interpolation"
 	"github.com/compose-spec/compose-go/v2/types"
 )
@@ -304,4 +307,84 @@ func VerifC08EscapePipeline() {
 	vrtObserve("off", tcSvc(mOff, "s")["hostname"])
 	vrtAssert("escaped-on-equals-original-off", vrtDeepEqual(tcSvc(mOff, "s")["hostname"], tcSvc(mOn, "s")["hostname"]) &&
 		vrtDeepEqual(tcSvc(mOff, "s")["labels"], tcSvc(mOn, "s")["labels"]) && vrtDeepEqual(tcSvc(mOff, "s")["command"], tcSvc(mOn, "s")["command"]))
+}
+
+// VerifC08Extensions: the typed-attribute conversions apply to the attributes they name and to nothing else. For
+// every pattern of the loader's own conversion table a look-alike path is built under an extension (top level
+// `x-<first segment>` and `services.s.x-ext`), holding a string that reads as a boolean / number; it must come out
+// of interpolation as the same string.
+func VerifC08Extensions() {
+	var pats []string
+	for p := range interpolateTypeCastMapping {
+		pats = append(pats, string(p))
+	}
+	sort.Strings(pats)
+	part, parts := vrtParam("PART", 0), vrtParam("PARTS", 1)
+	var mine []string
+	for i, p := range pats {
+		if i%parts == part {
+			mine = append(mine, p)
+		}
+	}
+	vrtAssume(len(mine) > 0)
+	pat := mine[vrtChoice("pattern", len(mine))]
+	leaf := []string{"true", "no", "12", "1.5"}[vrtChoice("leaf", 4)]
+	segs := strings.Split(pat, ".")
+	var build func(k int) any
+	build = func(k int) any {
+		if k == len(segs) {
+			return leaf
+		}
+		switch segs[k] {
+		case "*":
+			return map[string]any{"k": build(k + 1)}
+		case "[]":
+			return []any{build(k + 1)}
+		}
+		return map[string]any{segs[k]: build(k + 1)}
+	}
+	var get func(v any, k int) any
+	get = func(v any, k int) any {
+		if k == len(segs) {
+			return v
+		}
+		switch x := v.(type) {
+		case map[string]any:
+			if segs[k] == "*" {
+				return get(x["k"], k+1)
+			}
+			return get(x[segs[k]], k+1)
+		case []any:
+			if len(x) == 1 {
+				return get(x[0], k+1)
+			}
+		}
+		return nil
+	}
+	where := vrtChoice("where", 2)
+	doc := map[string]any{"services": map[string]any{"s": map[string]any{"image": "i"}}}
+	if where == 0 {
+		doc["x-"+segs[0]] = build(1)
+	} else {
+		// below a service: services.s.x-ext.<rest of the pattern after services.*>
+		vrtAssume(len(segs) > 2 && segs[0] == "services")
+		doc["services"].(map[string]any)["s"].(map[string]any)["x-ext"] = build(2)
+	}
+	m, err := tcLoad(types.Mapping{}, nil, doc)
+	vrtObserve("err", err != nil)
+	if err != nil {
+		vrtObserve("msg", err.Error())
+	}
+	vrtAssert("extension-look-alike-loads", err == nil)
+	if err != nil {
+		return
+	}
+	var got any
+	if where == 0 {
+		got = get(m["x-"+segs[0]], 1)
+	} else {
+		got = get(tcSvc(m, "s")["x-ext"], 2)
+	}
+	vrtObserve("got", got)
+	vrtAssert("extension-string-stays-a-string", got == any(leaf))
 }
